@@ -1672,6 +1672,11 @@ class PyCdlib:
                                             current_extent - part_start)
 
                 if self.isohybrid_mbr is not None:
+                    if enc.entry is self.eltorito_boot_catalog.initial_entry:
+                        # The hybrid MBR loads the default boot image (the
+                        # one add_isohybrid checked), not any other one.
+                        self.isohybrid_mbr.update_rba(current_extent)
+
                     if enc.platform_id == 0xef:
                         # A hybrid made without EFI (or Mac) support has no
                         # partition for the image; it is only an El Torito one.
@@ -1687,8 +1692,6 @@ class PyCdlib:
                         else:
                             raise pycdlibexception.PyCdlibInternalError('Only expected two EFI sections')
                         num_seen_efi += 1
-                    elif enc.platform_id == 0:
-                        self.isohybrid_mbr.update_rba(current_extent)
 
                 current_extent = self._set_inode(enc.entry.inode, current_extent,
                                                  part_start)
